@@ -3,6 +3,7 @@ package props
 import (
 	"bytes"
 	"fmt"
+	"strings"
 
 	"github.com/yuin/goldmark/text"
 
@@ -182,6 +183,9 @@ func FuzzOne(id string, sel uint16, data []byte) (res FuzzResult) {
 		}
 	case "C10":
 		base := c10Base(s%cfg.NExt, (s/cfg.NExt)%2)
+		if s%11 == 10 {
+			base = c10Direct(s / 11 % 2)
+		}
 		res.Config = base.Name()
 		g := fzGroups[res.Config]
 		if g == nil {
@@ -317,6 +321,9 @@ func FamilyReplay(c *core.Ctx, id string) {
 		for _, n := range wl.BoundarySizes {
 			if fi < wl.FirstLimitFamily && n > 257 {
 				continue
+			}
+			if strings.HasSuffix(fam.Name, "-xl") && (id != "C17" || n != 1025) {
+				continue // very large outputs: only where the shape itself is the subject
 			}
 			idx++
 			if !c.Mine(idx) {
